@@ -1,0 +1,20 @@
+//go:build verif_min && !verif && !verif_noref
+
+package rosed
+
+// The verif-tagged exports again, in three groups that can be left out separately, for a
+// tree in which some of them no longer compile (an unexported name they refer to was
+// renamed, say): `-tags verif_min` compiles this file (the parent reference of a
+// sub-editor; left out with the additional tag verif_noref), verif_min_export_gem.go with internal/gem/verif_min_export.go (left out
+// with the additional tag verif_nogem) and verif_min_export_manip.go (left out with
+// verif_nomanip). With `-tags verif` none of them is compiled and verif_export.go,
+// verif_export_table.go and internal/gem/verif_export.go are used as before. Adds
+// read-only accessors only; changes no existing code.
+
+// VerifRef reports the parent reference of a sub-editor.
+func VerifRef(ed Editor) (has bool, start, end int, parent Editor) {
+	if ed.ref == nil {
+		return false, 0, 0, Editor{}
+	}
+	return true, ed.ref.start, ed.ref.end, *ed.ref.parent
+}
